@@ -50,7 +50,8 @@ pub fn build_history(rng: &mut Rng, n: usize, pool: usize) -> Vec<Call> {
     while h.len() < n {
         let (ev, s) = exprs[rng.below(exprs.len())].clone();
         let pool = ph_pool(ev);
-        match rng.below(7) {
+        match rng.below(8) {
+            7 => long_then_short(rng, ev, &exprs, &mut h),
             6 => part_way_failure(rng, ev, &mut h),
             5 => {
                 // iterative functions on neighbouring arguments back to back: a warm start or memo
@@ -112,6 +113,29 @@ pub fn build_history(rng: &mut Rng, n: usize, pool: usize) -> Vec<Call> {
     }
     h.truncate(n);
     h
+}
+
+/// An input far longer than the usual ones (hundreds to thousands of bytes, but a shallow tree), then
+/// short ones: whatever is kept from one call to the next and sized by the input (a reused buffer
+/// with a retained tail or capacity, a table that has grown) shows in the calls that follow.
+fn long_then_short(rng: &mut Rng, ev: Ev, exprs: &[(Ev, String)], h: &mut Vec<Call>) {
+    let n = *rng.pick(&[40usize, 100, 300, 1000][..]);
+    let long = match rng.below(5) {
+        0 => format!("{}({})", *rng.pick(&["max", "min", "avg", "med", "gcd"][..]), (0..n).map(|k| format!("{}", 1 + (k * 7) % 23)).collect::<Vec<_>>().join(",")),
+        1 => format!("0.{}", "3".repeat(n * 3)),
+        2 => format!("1{}", "0".repeat(n * 2)),
+        3 => (0..n.min(100)).map(|k| format!("1.00000000{:02}", k)).collect::<Vec<_>>().join("+"),
+        _ => format!("max({})+@", (0..n).map(|k| format!("{}.5", k % 9)).collect::<Vec<_>>().join(" ,\t")),
+    };
+    let pool = ph_pool(ev);
+    h.push(Call { ev, expr: long.clone(), ph: *rng.pick(&pool) });
+    for _ in 0..2 {
+        let (e2, s2) = exprs[rng.below(exprs.len())].clone();
+        h.push(Call { ev: e2, expr: s2, ph: *rng.pick(&ph_pool(e2)) });
+    }
+    if rng.chance(1, 2) {
+        h.push(Call { ev, expr: long, ph: *rng.pick(&pool) });
+    }
 }
 
 /// An evaluation that fails part-way through (a later argument of a many-argument function, the right
@@ -330,13 +354,25 @@ impl Monitor for C16 {
         }
         // phase E: short sequences in fresh processes - whatever the first calls of a process (or its
         // first use of an evaluator) fix for the rest of its life shows in the calls that follow
-        let seqs = ctx.tier.pick(12usize, 120);
+        let seqs = ctx.tier.pick(40usize, 300);
         if let Some(exe) = &exe {
             let dir = format!("{}/.build/tmp", crate::driver::root());
             let _ = std::fs::create_dir_all(&dir);
             for s in 0..seqs {
                 let len = 3 + rng.below(6);
-                let idx: Vec<usize> = (0..len).map(|_| rng.below(hist.len())).collect();
+                // random picks, or a run of neighbours of the history (related calls: the same expression with
+                // changing placeholders, neighbouring arguments of one function), forwards or backwards
+                let idx: Vec<usize> = match s % 3 {
+                    0 => (0..len).map(|_| rng.below(hist.len())).collect(),
+                    k => {
+                        let start = rng.below(hist.len());
+                        let mut v: Vec<usize> = (0..len).map(|j| (start + j) % hist.len()).collect();
+                        if k == 2 {
+                            v.reverse();
+                        }
+                        v
+                    }
+                };
                 let path = format!("{}/c16-seq-{}-{}-{}.jsonl", dir, std::process::id(), ctx.shard, s);
                 let text: String = idx.iter().map(|i| Case::new(hist[*i].ev, "history", &hist[*i].expr, hist[*i].ph).to_json().to_string() + "\n").collect();
                 if std::fs::write(&path, text).is_err() {
@@ -370,6 +406,92 @@ impl Monitor for C16 {
                 }
             }
         }
+        // phase F: fresh processes in which nothing is evaluated before 8 threads start together on the
+        // same run of calls: tables built lazily are built under contention (in phase C they already exist)
+        let concs = ctx.tier.pick(6usize, 60);
+        if let Some(exe) = &exe {
+            let dir = format!("{}/.build/tmp", crate::driver::root());
+            let mut extra_base: HashMap<String, Outcome> = HashMap::new();
+            for s in 0..concs {
+                let len = 10 + rng.below(30);
+                let calls: Vec<Call> = if s % 2 == 0 {
+                    let start = rng.below(hist.len());
+                    (0..len).map(|j| hist[(start + j) % hist.len()].clone()).collect()
+                } else {
+                    // one function swept over ascending arguments: every thread meets each not-yet-seen
+                    // argument at the same moment
+                    let ev = ALL_EV[rng.below(ALL_EV.len())];
+                    let t = *rng.pick(&["@!", "(@)!+1", "w(@)", "ilog(@,2)", "2^@", "sqrt(@)", "exp(@/10)", "ln(@+1)", "gcd(@,360)", "lcm(@,12)", "@!/(@-1)!", "med(@,3,@+1)"][..]);
+                    (0..len + 20)
+                        .map(|k| {
+                            let k = k as i64;
+                            let ph = match ev {
+                                Ev::F64 => Val::F(k as f64),
+                                Ev::I64 => Val::I(k),
+                                Ev::Dec => Val::D(crate::val::DecV { neg: false, mant: k as u128, scale: 0 }),
+                                Ev::Cpx => Val::C(k as f64, 0.0),
+                                Ev::Num => {
+                                    if k % 3 == 0 {
+                                        Val::NF(k as f64)
+                                    } else {
+                                        Val::NI(k)
+                                    }
+                                }
+                            };
+                            Call { ev, expr: t.to_string(), ph }
+                        })
+                        .collect()
+                };
+                let path = format!("{}/c16-conc-{}-{}-{}.jsonl", dir, std::process::id(), ctx.shard, s);
+                let text: String = calls.iter().map(|c| Case::new(c.ev, "history", &c.expr, c.ph).to_json().to_string() + "\n").collect();
+                if std::fs::write(&path, text).is_err() {
+                    ctx.stats.inc("fresh_process_spawn_failed");
+                    continue;
+                }
+                let out = std::process::Command::new(exe).arg("fresh-conc").arg(&path).arg("8").output();
+                let _ = std::fs::remove_file(&path);
+                let parsed = match out {
+                    Ok(o) if o.status.success() => crate::json::J::parse(String::from_utf8_lossy(&o.stdout).trim()).ok(),
+                    _ => None,
+                };
+                let j = match parsed {
+                    Some(j) => j,
+                    None => {
+                        ctx.stats.inc("fresh_process_spawn_failed");
+                        continue;
+                    }
+                };
+                ctx.stats.inc("fresh_concurrent_processes");
+                let strs = |a: &crate::json::J| -> Vec<String> {
+                    match a {
+                        crate::json::J::Arr(v) => v.iter().filter_map(|x| x.as_str().map(|t| t.to_string())).collect(),
+                        _ => vec![],
+                    }
+                };
+                let mut lists: Vec<(String, Vec<String>)> = j.arr("threads").iter().enumerate().map(|(t, a)| (format!("thread {} of 8 started together in a fresh process", t), strs(a))).collect();
+                lists.push(("one thread of a fresh process after 8 concurrent ones".to_string(), j.get("after").map(strs).unwrap_or_default()));
+                for (what, outs) in lists {
+                    if outs.len() != calls.len() {
+                        ctx.stats.inc("fresh_process_spawn_failed");
+                        continue;
+                    }
+                    for (k, c) in calls.iter().enumerate() {
+                        let key = c.key();
+                        let b: Outcome = match base.get(&key) {
+                            Some(b) => b.clone(),
+                            None => extra_base.entry(key).or_insert_with(|| run_call(c, 0)).clone(),
+                        };
+                        let b = &b;
+                        if outs[k] != b.enc() {
+                            let fake = Outcome::Err(format!("({}) {}", what, outs[k]));
+                            self.report(ctx, c, b, &fake, "fresh process with 8 threads started together");
+                        } else {
+                            self.ok(ctx, c, "fresh-concurrent");
+                        }
+                    }
+                }
+            }
+        }
     }
     fn judge(&self, case: &Case, _st: &mut Stats) -> Verdict {
         // replay: the recorded outcome must be what a plain call returns, every time
@@ -386,7 +508,7 @@ impl Monitor for C16 {
         pass(true)
     }
     fn rule(&self) -> &'static str {
-        "each of the 16 workers builds its own random history (12 to 300 distinct expressions per evaluator in the quick tier, 40 to 3000 in the thorough tier, depending on the worker - few, so that each is repeated often, or more than a capacity-bounded table would hold; incl. malformed ones, the same expression with changing placeholders back to back, failing calls between good ones, evaluations that fail part-way through (in a later argument, a right operand, an inner call) followed by successful ones of the same and of unrelated expressions, the same text sent to every evaluator) and runs it (A) sequentially, recording the outcome of every distinct (evaluator, expression, placeholder) and comparing repeats, (B) in a shuffled order, (C) on 16 threads concurrently, each thread replaying the history from a different rotation with thread::yield_now() injected at every k-th counted step, (D) as the first call of a fresh process for a sample, (E) as short random sequences (3-8 calls) each in a fresh process of its own; any call observed with two different outcomes (full comparison including error messages) is a violation; begin/end tickets from one atomic counter show which calls overlapped in time; plus Miri (many seeds) and, in the thorough tier, ThreadSanitizer over a multi-threaded replay; non-trivial = every compared observation; distinct = distinct (evaluator, expression, placeholder, phase)"
+        "each of the 16 workers builds its own random history (12 to 300 distinct expressions per evaluator in the quick tier, 40 to 3000 in the thorough tier, depending on the worker - few, so that each is repeated often, or more than a capacity-bounded table would hold; incl. malformed ones, the same expression with changing placeholders back to back, failing calls between good ones, evaluations that fail part-way through (in a later argument, a right operand, an inner call) followed by successful ones of the same and of unrelated expressions, the same text sent to every evaluator) and runs it (A) sequentially, recording the outcome of every distinct (evaluator, expression, placeholder) and comparing repeats, (B) in a shuffled order, (C) on 16 threads concurrently, each thread replaying the history from a different rotation with thread::yield_now() injected at every k-th counted step, (D) as the first call of a fresh process for a sample, (E) as short sequences (3-8 calls: random picks, or runs of neighbouring calls of the history forwards and backwards) each in a fresh process of its own, (F) in fresh processes where 8 threads leave a barrier together and run the same calls (10-40 neighbouring calls of the history, or one function swept over ascending arguments) before anything else has been evaluated, followed by one more sequential pass; histories include inputs of hundreds to thousands of bytes followed by short ones; any call observed with two different outcomes (full comparison including error messages) is a violation; begin/end tickets from one atomic counter show which calls overlapped in time; plus Miri (many seeds) and, in the thorough tier, ThreadSanitizer over a multi-threaded replay; non-trivial = every compared observation; distinct = distinct (evaluator, expression, placeholder, phase)"
     }
     fn assumptions(&self) -> Vec<&'static str> {
         vec![
@@ -395,7 +517,7 @@ impl Monitor for C16 {
         ]
     }
     fn floors(&self, t: Tier) -> Vec<(String, u64)> {
-        vec![("overlapping_call_pairs".into(), 10_000), ("concurrent_calls".into(), t.pick(100_000, 1_000_000)), ("fresh_process_baselines_agreeing".into(), t.pick(100, 1000)), ("distinct_calls".into(), 5_000), ("fresh_process_sequences".into(), t.pick(100, 1000)), ("expressions_both_succeeding_and_failing".into(), 200)]
+        vec![("overlapping_call_pairs".into(), 10_000), ("concurrent_calls".into(), t.pick(100_000, 1_000_000)), ("fresh_process_baselines_agreeing".into(), t.pick(100, 1000)), ("distinct_calls".into(), 5_000), ("fresh_process_sequences".into(), t.pick(300, 3000)), ("fresh_concurrent_processes".into(), t.pick(50, 500)), ("expressions_both_succeeding_and_failing".into(), 200)]
     }
 }
 
